@@ -172,6 +172,14 @@ def norm(o):
 NOWAIT_OPENING = re.compile(r"^\s*!\$omp\s+single\b[^\n]*\bnowait\b", re.M | re.I)
 
 
+def acc_data_in_acc_routine(code):
+    """some program unit of the emitted text has both `!$acc routine` and an `!$acc data` region"""
+    for unit in re.split(r"(?im)^\s*end\s+(?:subroutine|function)\b.*$", code):
+        if re.search(r"(?im)^\s*!\$acc\s+routine\b", unit) and re.search(r"(?im)^\s*!\$acc\s+data\b", unit):
+            return True
+    return False
+
+
 def judge(m, val, wout, gf, history=True, code=None):
     """The property on one tree.  m: model/spec verdicts; val: real validate sweep; wout: real writer
     outcome; gf: None or (ok, errors).  Returns (verdict, reason): verdict in ok | known | violation."""
@@ -192,6 +200,10 @@ def judge(m, val, wout, gf, history=True, code=None):
         # the finding is about the emitted TEXT: `nowait` on the opening `!$omp single` line (with the
         # candidate fix C10-single-nowait-end-line the clause moves to `!$omp end single`: not a finding)
         return "known", "C10-single-nowait-placement"
+    if gf is not None and not gf[0] and code is not None and acc_data_in_acc_routine(code):
+        # genuine defect kept as a known finding: ACCDataTrans is accepted inside a routine that carries `acc routine`
+        # (fix b01d4e9 refuses compute regions there, not data regions); gfortran rejects the routine
+        return "known", "C10-acc-data-in-acc-routine"
     if gf is not None and not gf[0]:
         return "violation", "gfortran -fopenmp -fopenacc rejects the emitted code: %s" % "; ".join(gf[1])
     return "ok", ""
